@@ -3,7 +3,7 @@
 
 namespace ratio
 {
-    disj_flaw::disj_flaw(solver &slv, std::vector<resolver *> causes, std::vector<smt::lit> lits) : flaw(slv, std::move(causes), false), lits(std::move(lits)) {}
+    disj_flaw::disj_flaw(solver &slv, std::vector<resolver *> causes, std::vector<smt::lit> lits, const smt::lit &disj) : flaw(slv, std::move(causes), false), lits(std::move(lits)), disj(disj) {}
 
     std::string disj_flaw::get_data() const noexcept { return "{\"type\":\"disj\", \"phi\":\"" + to_string(get_phi()) + "\", \"position\":" + std::to_string(get_position()) + "}"; }
 
@@ -11,6 +11,8 @@ namespace ratio
     {
         for (const auto &p : lits)
             add_resolver(*new choose_lit(smt::rational(1, static_cast<smt::I>(lits.size())), *this, p), false); // the literal of a disjunct has a meaning of its own: it can hold whether or not this disjunction is in the plan..
+        // the disjunction may also be used negatively (e.g., '!(a | b)', 'c == (a | b)' with 'c' false): then no disjunct has to be chosen..
+        add_resolver(*new choose_lit(smt::rational(1, static_cast<smt::I>(lits.size())), *this, !disj), false);
     }
 
     disj_flaw::choose_lit::choose_lit(smt::rational cst, disj_flaw &disj_flaw, const smt::lit &p) : resolver(p, cst, disj_flaw) {}
